@@ -218,7 +218,7 @@ func runC16(c *Ctx) {
 					continue
 				}
 				o, s := ownerOfFieldBase(fa.X.Type())
-				if o == "statemachine.loggedEvent" && s.Field(fa.Field).Name() == "noRevert" {
+				if o == "statemachine.loggedEvent" && fieldNameOf(s.Field(fa.Field)) == "noRevert" {
 					return T(st.Val).String(), st
 				}
 			}
@@ -245,7 +245,7 @@ func runC16(c *Ctx) {
 				if st, ok := in.(*ssa.Store); ok {
 					if fa, ok := st.Addr.(*ssa.FieldAddr); ok {
 						o, s := ownerOfFieldBase(fa.X.Type())
-						if o == "blockchain.Event" && s.Field(fa.Field).Name() == "Index" {
+						if o == "blockchain.Event" && fieldNameOf(s.Field(fa.Field)) == "Index" {
 							t := rf.Term(st.Val).String()
 							okIdx = strings.Contains(t, "snapshotIndex") && strings.Contains(t, "builtin:len")
 							keep, _ := rf.BoolHoldsAt(b, IsField("statemachine.loggedEvent", "noRevert"), true)
@@ -503,7 +503,7 @@ func fieldWritesAny(fn *ssa.Function, name string) []ssa.Instruction {
 			if st, ok := in.(*ssa.Store); ok {
 				if fa, ok := st.Addr.(*ssa.FieldAddr); ok {
 					_, s := ownerOfFieldBase(fa.X.Type())
-					if s != nil && s.Field(fa.Field).Name() == name {
+					if s != nil && fieldNameOf(s.Field(fa.Field)) == name {
 						out = append(out, st)
 					}
 				}
